@@ -92,7 +92,7 @@ fn dispatch(name: &str, ctx: &Ctx, rep: &mut Report) -> bool {
         "slot_probe" => slot_probe(ctx, rep),
         "cost" => cost(ctx, rep),
         "reuse" => reuse(ctx, rep),
-        "container" => { container(ctx, rep); container_large(ctx, rep); }
+        "container" => { container(ctx, rep); container_large(ctx, rep); container_clustering(ctx, rep); }
         _ => return false,
     }
     true
@@ -391,7 +391,8 @@ fn sweep_single(ctx: &Ctx, rep: &mut Report) {
         cases.push(AlgoCase { algo, method: 0, wide, n, bits: to_bits(&v, wide), family: fam });
     }
     // a few big ones (thousands) through the quadratic entry points
-    let bigs: &[u64] = if ctx.big { &[1500, 2500, 4000] } else { &[1200] };
+    // beyond 4096 and 8192 observations: two-level (64 x 64) bitmaps and the like change words there
+    let bigs: &[u64] = if ctx.big { &[1500, 2500, 4000, 4100, 4161, 4500, 8200] } else { &[1200, 4100, 4161] };
     for (k, &n) in bigs.iter().enumerate() {
         let fam = if k % 2 == 0 { "lattice" } else { "uniform" };
         let v = matrix_f64(&mut rng, n as usize, fam, true);
@@ -463,8 +464,35 @@ fn separated_matrix(rng: &mut Rng, n: usize, kind: u64) -> Vec<f64> {
             for a in 0..n { for b in a + 1..n { v.push((xs[lab[a]] - xs[lab[b]]).abs()); } }
             v
         }
+        4 | 5 => {
+            // two widely separated scales in one matrix (ratio far below sqrt(MIN_POSITIVE)): groups
+            // whose members are 1e-60 (f32: 1e-8) apart, at 1e120 (f32: 1e16) from each other; every
+            // entry and every square is a normal number, so this is ordinary valid input
+            let (lo, hi) = if kind == 4 { (1e-60, 1e120) } else { (1e-8, 1e16) };
+            let g = 2 + rng.below(3) as usize;
+            let mut us: Vec<f64> = (0..len).map(|k| 1.0 + 0.25 * (k as f64 + rng.unit() * 0.5) / len as f64).collect();
+            for i in (1..len).rev() { let j = rng.below(i as u64 + 1) as usize; us.swap(i, j); }
+            let mut v = Vec::with_capacity(len); let mut k = 0;
+            for a in 0..n { for b in a + 1..n { v.push(if a % g == b % g { lo } else { hi } * us[k]); k += 1; } }
+            v
+        }
         _ => matrix_f64(rng, n, "uniform", true),
     }
+}
+
+/// smallest RELATIVE gap between the minimum and the runner-up over the steps of the reference run,
+/// and between consecutive sorted heights (for inputs that mix magnitudes)
+fn relative_margin(n: usize, cond: &[f64], method: u8) -> f64 {
+    let mut r = Replay::new(n, cond, method);
+    let mut worst = f64::INFINITY; let mut hs = vec![];
+    for _ in 1..n {
+        let (m1, m2, (a, b)) = r.min2();
+        if m2.is_finite() { worst = worst.min((m2 - m1) / m2.abs().max(f64::MIN_POSITIVE)); }
+        hs.push(m1);
+        r.merge(method, a, b);
+    }
+    if sorts(method) { hs.sort_by(|a, b| a.partial_cmp(b).unwrap()); for i in 1..hs.len() { worst = worst.min((hs[i] - hs[i - 1]) / hs[i].abs().max(f64::MIN_POSITIVE)); } }
+    worst
 }
 
 fn margins_ok(reference: &[(usize, usize, f64, usize)], margin: f64, need: f64, method: u8) -> bool {
@@ -486,11 +514,12 @@ fn agree(ctx: &Ctx, rep: &mut Report) {
         let n = if wide && i % 9 == 4 { rng.range(64, if ctx.big { 300 } else { 150 }) as usize }
                 else if wide && i % 9 == 7 { if i % 2 == 0 { boundary_size(&mut rng, 257) as usize } else { rng.range(130, if ctx.big { 400 } else { 280 }) as usize } }
                 else { rng.range(2, cap) as usize };
-        let kind = rng.below(4);
+        let kind = if i % 8 == 5 { if wide { 4 } else { 5 } } else { rng.below(4) };
         // long nearest-neighbour chains need enough points
         let n = if kind == 3 && wide { n.max(rng.range(66, if ctx.big { 260 } else { 140 }) as usize) } else { n };
+        let n = if kind >= 4 { n.clamp(4, 60) } else { n };
         let mut v0 = separated_matrix(&mut rng, n, kind);
-        if i % 3 == 1 { rescale(&mut rng, &mut v0, wide); }
+        if i % 3 == 1 && kind < 4 { rescale(&mut rng, &mut v0, wide); }
         let bits = to_bits(&v0, wide);
         let base = AlgoCase { algo: 0, method, wide, n: n as u64, bits, family: "separated" };
         let v = vals_of(&base);
@@ -498,7 +527,11 @@ fn agree(ctx: &Ctx, rep: &mut Report) {
         let need = if wide { 1e-10 } else { 2e-3 } * if on_squares(method) { sc * sc } else { sc };
         let (reference, margin) = reference(n, &v, method);
         tick(&ctx.progress, &base.describe());
-        if !margins_ok(&reference, margin, need, method) { skipped += 1; continue; }
+        // mixed magnitudes: certify by relative gaps, compare heights relatively
+        let rel = kind >= 4;
+        let rel_need = if wide { 1e-9 } else { 2e-3 };
+        if rel { if !(relative_margin(n, &v, method) > rel_need) { skipped += 1; continue; } }
+        else if !margins_ok(&reference, margin, need, method) { skipped += 1; continue; }
         certified += 1;
         let t = (if wide { 1e-9 } else { 1e-3 }) * sc * (1.0 + (n as f64).log2());
         for algo in 0..5u8 {
@@ -524,7 +557,8 @@ fn agree(ctx: &Ctx, rep: &mut Report) {
                 let s = &steps[pos];
                 let hh = if on_squares(method) { h.max(0.0).sqrt() } else { h };
                 if (s.c1, s.c2, s.size) != (x, y, sz) { bad = Some(format!("step {}: ({}, {}, size {}) but the reference merges ({}, {}, size {})", pos, s.c1, s.c2, s.size, x, y, sz)); break; }
-                if (height(&c, s) - hh).abs() > t { bad = Some(format!("step {}: height {:e} vs reference {:e}", pos, height(&c, s), hh)); break; }
+                let tol = if rel { (if wide { 1e-9 } else { 1e-3 }) * hh.abs() * (1.0 + (n as f64).log2()) } else { t };
+                if (height(&c, s) - hh).abs() > tol { bad = Some(format!("step {}: height {:e} vs reference {:e}", pos, height(&c, s), hh)); break; }
             } }
             if let Some(b) = bad { rep.violation(format!("C06 violated: {} :: {}", b, shorten(&c))); }
             if n == 4 && algo == 0 { rep.sample(format!("{} -> {}", c.describe(), join(&tokens(&out), " "))); }
@@ -787,7 +821,50 @@ fn run_reused<T: Bits>(st: &mut kodama::LinkageState<T>, d: &mut kodama::Dendrog
     }
 }
 
+/// The cubic primitive algorithm at a few thousand observations, f32: positions computed through
+/// float arithmetic stop being exact there (f32 has 24 bits; (2n-1)^2 exceeds 2^24 from n = 2049, the
+/// matrix length exceeds it from n = 5794). One call costs tens of seconds, so only the ends of
+/// the first rows are probed, and only in the release profile.
+fn slot_probe_big_primitive(ctx: &Ctx, rep: &mut Report) {
+    if crate::streams::profile_name() != "release" { return; }
+    let probes: Vec<(u64, usize, usize, bool)> = if ctx.big { vec![(4098, 0, 4097, false), (4100, 1, 4099, false), (4100, 2, 4099, false), (4098, 0, 4097, true)] } else { vec![(4098, 0, 4097, false)] };
+    for (n, i, j, wide) in probes {
+        let len = (n * (n - 1) / 2) as usize;
+        let k = (i as u64 * (2 * n - i as u64 - 1) / 2) as usize + (j - i - 1);
+        let mut v: Vec<f64> = (0..len).map(|x| 100.0 + (x % 1000) as f64).collect();
+        v[k] = 0.25;
+        tick(&ctx.progress, &format!("slot probe primitive n={} pair=({}, {})", n, i, j));
+        let c = AlgoCase { algo: 4, method: 0, wide, n, bits: to_bits(&v, wide), family: "probe" };
+        // the watchdogs allow 40 s per call: a helper thread keeps them quiet for up to 5 minutes
+        let done = Arc::new(std::sync::atomic::AtomicBool::new(false));
+        let (d2, p2) = (done.clone(), ctx.progress.clone());
+        let what = format!("slot probe primitive n={} pair=({}, {}) (cubic: tens of seconds)", n, i, j);
+        let hb = std::thread::spawn(move || {
+            for _ in 0..60 {
+                std::thread::sleep(Duration::from_secs(5));
+                if d2.load(std::sync::atomic::Ordering::SeqCst) { break; }
+                tick(&p2, &what); tick_global(&what);
+            }
+        });
+        let out = run_fresh_w(wide, 4, 0, n, &c.bits);
+        done.store(true, std::sync::atomic::Ordering::SeqCst);
+        let _ = hb.join();
+        rep.evaluations += 1;
+        rep.nontrivial.insert(hash64(&[n, k as u64, 4, wide as u64]));
+        match &out {
+            Outcome::Panic(kk, m) => rep.violation(format!("C07 violated: panic {} {} on probe primitive n={} slot={}", kk, m, n, k)),
+            Outcome::Ok { steps, .. } => {
+                if steps.is_empty() || (steps[0].c1, steps[0].c2) != (i, j) || height(&c, &steps[0]) != 0.25 {
+                    rep.violation(format!("C07 violated: n={} slot {} is pair ({}, {}) but the first step of primitive single {} merges ({}, {}) at {:e}",
+                        n, k, i, j, if wide { "f64" } else { "f32" }, steps.get(0).map(|s| s.c1).unwrap_or(0), steps.get(0).map(|s| s.c2).unwrap_or(0), steps.get(0).map(|s| height(&c, s)).unwrap_or(f64::NAN)));
+                }
+            }
+        }
+    }
+}
+
 fn slot_probe(ctx: &Ctx, rep: &mut Report) {
+    slot_probe_big_primitive(ctx, rep);
     let mut rng = Rng::new(ctx.seed ^ 0xC07);
     // half of the probes go through the `_with` forms on objects shared by all
     // probes (sizes change from probe to probe)
@@ -1045,6 +1122,57 @@ fn container(ctx: &Ctx, rep: &mut Report) {
     }
 }
 
+/// cluster_size on dendrograms RETURNED by the clustering functions - fresh objects and, above all,
+/// objects reused over walks of sizes that stay, shrink, grow a little and jump (to 2a-1, 2a, 3a
+/// observations after a call with a): the recorded size of every label must be the number of
+/// observations beneath it, counted independently by replaying the steps.
+fn container_clustering(ctx: &Ctx, rep: &mut Report) {
+    let mut rng = Rng::new(ctx.seed ^ 0x19C);
+    let walks = if ctx.big { 400 } else { 120 };
+    for w in 0..walks {
+        let wide = w % 3 != 0;
+        let algo = (w % 5) as u8;
+        let mut st64: kodama::LinkageState<f64> = kodama::LinkageState::new();
+        let mut d64: kodama::Dendrogram<f64> = kodama::Dendrogram::new(0);
+        let mut st32: kodama::LinkageState<f32> = kodama::LinkageState::new();
+        let mut d32: kodama::Dendrogram<f32> = kodama::Dendrogram::new(0);
+        let mut n = rng.range(2, 12);
+        for call in 0..6 {
+            let method = loop { let m = rng.below(7) as u8; if accepts(algo, m) { break m; } };
+            let v = matrix_f64(&mut rng, n as usize, ["uniform", "lattice", "euclid"][call % 3], wide);
+            let bits = to_bits(&v, wide);
+            tick(&ctx.progress, &format!("container: clustering walk {} call {} n={}", w, call, n));
+            let out = if wide { run_reused::<f64>(&mut st64, &mut d64, algo, method, n, &bits) } else { run_reused::<f32>(&mut st32, &mut d32, algo, method, n, &bits) };
+            rep.evaluations += 1;
+            if let Outcome::Ok { steps, .. } = &out {
+                // independent count of the observations beneath every label
+                let nn = n as usize;
+                let mut beneath: Vec<usize> = vec![1; nn];
+                let mut ok = true;
+                for s in steps.iter() {
+                    if s.c1 >= beneath.len() || s.c2 >= beneath.len() { ok = false; break; }
+                    beneath.push(beneath[s.c1] + beneath[s.c2]);
+                }
+                if ok {
+                    for (label, &want) in beneath.iter().enumerate() {
+                        let got = if wide { catch(|| d64.cluster_size(label)) } else { catch(|| d32.cluster_size(label)) };
+                        if got.as_ref().ok() != Some(&want) {
+                            rep.violation(format!("C19 violated: cluster_size({}) = {:?} but {} observations lie beneath that label :: {}_with {} {} n={} (call #{} on a reused LinkageState/Dendrogram; sizes of the earlier calls in this walk were smaller)",
+                                label, got.map_err(|e| e.1), want, ALGO_NAMES[algo as usize], METHOD_NAMES[method as usize], if wide { "f64" } else { "f32" }, n, call + 1));
+                            break;
+                        }
+                    }
+                    rep.nontrivial.insert(hash64(&[w as u64, call as u64, n]));
+                }
+            }
+            // next size: stay / shrink / grow a little / jump
+            n = match (w + call) % 6 { 0 => n, 1 => rng.range(2, n.max(2)), 2 => n + rng.range(1, 3), 3 => 2 * n - 1, 4 => 2 * n + rng.below(3), _ => 3 * n };
+            let cap = if algo == 4 { 40 } else { 160 };
+            if n > cap { n = rng.range(2, 8); }
+        }
+    }
+}
+
 /// larger containers: labels and sizes beyond 2^8 / 2^16 / 2^24 (f32 exactness), capacity after
 /// resets to smaller / equal / larger sizes, tolerance boundaries
 fn container_large(ctx: &Ctx, rep: &mut Report) {
@@ -1171,6 +1299,30 @@ fn shape_sweep(rep: &mut Report, seed: u64, big: bool) {
                         "C13 well-formed shape rejected: {} {} n={} len={} panic{} {}",
                         ALGO_NAMES[algo as usize], METHOD_NAMES[method as usize], n, len, c, msg)),
                     _ => {}
+                }
+                // right after a VALID call on the shared state: the same slice with other observation
+                // counts (a shape that was right a moment ago on this very state must not be remembered)
+                if good && use_with && res.is_ok() && n >= 2 {
+                    for n2 in [n - 1, n.saturating_sub(2), 2, 1, 0, n + 1] {
+                        if n2 == n || wellformed(n2, len) { continue; }
+                        let algo2 = (algo + (n2 % 5) as u8) % 5;
+                        let method2 = loop { let m = rng.below(7) as u8; if accepts(algo2, m) { break m; } };
+                        let r2: Result<usize, (u64, String)> = if wide {
+                            let mut m: Vec<f64> = vals[..len].to_vec();
+                            catch(|| { call_with::<f64>(algo2, method2, &mut st64, &mut m, n2 as usize, &mut d64); d64.len() })
+                        } else {
+                            let mut m: Vec<f32> = vals[..len].iter().map(|&x| x as f32).collect();
+                            catch(|| { call_with::<f32>(algo2, method2, &mut st32, &mut m, n2 as usize, &mut d32); d32.len() })
+                        };
+                        rep.evaluations += 1;
+                        if let Ok(k) = r2 {
+                            rep.violation(format!("C13 malformed shape accepted: {}_with {} {} n={} len={} returned a dendrogram with {} steps (on a LinkageState whose previous call was the valid n={} len={})",
+                                ALGO_NAMES[algo2 as usize], METHOD_NAMES[method2 as usize], if wide { "f64" } else { "f32" }, n2, len, k, n, len));
+                        }
+                        // restore: the next valid probe starts from a state that saw this length as valid
+                        if wide { let mut m: Vec<f64> = vals[..len].to_vec(); let _ = catch(|| call_with::<f64>(algo, method, &mut st64, &mut m, n as usize, &mut d64)); }
+                        else { let mut m: Vec<f32> = vals[..len].iter().map(|&x| x as f32).collect(); let _ = catch(|| call_with::<f32>(algo, method, &mut st32, &mut m, n as usize, &mut d32)); }
+                    }
                 }
                 if len == 3 && (n == 3 || n == 4) && da == 0 {
                     rep.sample(format!("{}{} n={} len={} -> {}", ALGO_NAMES[algo as usize], if use_with { "_with" } else { "" }, n, len,
